@@ -1169,6 +1169,10 @@ class _RK45(_AdaptiveStepRK):
                 "Adaptive Runge-Kutta integrators step forward only and require an increasing "
                 "time grid; propagate backward with a direction-wrapped system (forward=-1)."
             )
+        # Common zero-span short-circuit (the dense output divides by the segment length)
+        constant_sol = self._maybe_constant_solution(system, y0, t_vals)
+        if constant_sol is not None:
+            return constant_sol
         is_hamiltonian = isinstance(system, _HamiltonianSystemProtocol)
         if not is_hamiltonian:
             f = self._build_rhs_wrapper(system)
